@@ -314,6 +314,21 @@ def explore_ad(case):
                         res.fail(site="%s.%s" % (name, op), clause="autodiff_finite_near_zero",
                                  cls="theta=0" if th == 0 else ("0<theta<=1e-8" if th <= 1e-8 else "1e-8<theta<=1e-3"),
                                  detail=dict(x=xv, theta=th, n_nonfinite=int(np.sum(~np.isfinite(D)))), sub="ad", case=case)
+                        continue
+                    # "... so the functions can be linearised": the AD matrix is the derivative of the function's own values (central
+                    # differences of the values that the other sub-checks compare with the exact ones; step 1e-5, tolerance 1e-5)
+                    if op in ("exp", "log"):
+                        arg = np.asarray(xv if kind == "alg" else Xv, dtype=float)
+                        h_ = 1e-5
+                        FD = np.zeros_like(D)
+                        for k_ in range(arg.size):
+                            e_ = np.zeros(arg.size)
+                            e_[k_] = h_
+                            FD[:, k_] = (B.vec(op, arg + e_) - B.vec(op, arg - e_)) / (2 * h_)
+                        res.count("evaluations")
+                        if np.all(np.isfinite(FD)) and maxabs(D - FD) > 1e-5 * (1 + maxabs(FD)):
+                            res.fail(site="%s.%s" % (name, op), clause="autodiff_is_the_derivative_of_the_values", cls="theta=0" if th == 0 else ("0<theta<=1e-8" if th <= 1e-8 else "1e-8<theta<=1e-3"),
+                                     detail=dict(x=xv, theta=th, err=maxabs(D - FD), autodiff_col0=D[:, 0], differences_col0=FD[:, 0]), sub="ad", case=case)
     res.samples.append(dict(config=name, ad_functions=sorted(fns)))
     return res
 
